@@ -208,12 +208,31 @@ def parse_tuple(line):
         return None
 
 
+_TUPSTART = re.compile(r'^<<"[A-Z]+"')
+
+
 def tuples(res, tags=None):
+    """TLC pretty-prints values wider than 80 columns over several lines: join them back."""
     out = []
+    pending = None
     for line in res.lines:
+        if pending is not None:
+            pending += " " + line.strip()
+            if pending.endswith(">>"):
+                t = parse_tuple(pending)
+                if t is not None:
+                    if tags is None or t[0] in tags:
+                        out.append(t)
+                    pending = None
+                elif len(pending) > 4000:
+                    pending = None
+            continue
         t = parse_tuple(line)
-        if t is not None and (tags is None or t[0] in tags):
-            out.append(t)
+        if t is not None:
+            if tags is None or t[0] in tags:
+                out.append(t)
+        elif _TUPSTART.match(line):
+            pending = line.strip()
     return out
 
 
